@@ -5,6 +5,7 @@
 -/
 import Ps3.Model.Conn
 import Ps3.Spec.C13
+import Ps3.Model.FSWrap
 namespace Ps3.Props.C13
 open Ps3 Ps3.Conn Ps3.Proto Ps3.Spec.C13
 
@@ -173,5 +174,57 @@ theorem short_read_must_be_invisible (allOps : List Nat) (allBase : List Tok) (i
     judgeFrom true allOps allBase i (op :: ops) (b :: bs) (g :: gs) ≠ .ok := by
   have : (g == b) = false := by simpa using h
   simp [judgeFrom, this]
+
+/-! ### key lookup under faults -/
+section KeyLookup
+open Ps3.FSWrap
+
+/-- **A failing open of the adjacent key never falls back** to the REDKEY key and never yields a
+    keyless (ciphertext) view: the open fails. -/
+theorem adjacent_error_never_falls_back (red : OpenRes) : keyDecision .ioerr red = .failed := rfl
+
+theorem redkey_error_fails (red : OpenRes) (h : red = .ioerr) : keyDecision .absent red = .failed := by
+  subst h; rfl
+
+/-- the key that is used is the first one present: the adjacent one, or — only when that is truly
+    absent — the REDKEY one -/
+theorem key_used_is_first_present (adj red : OpenRes) (k : Bytes) (h : keyDecision adj red = .key k) :
+    adj = .opened (.key k) ∨ (adj = .absent ∧ red = .opened (.key k)) := by
+  cases adj with
+  | opened r => left; simp [keyDecision] at h; rw [h]
+  | ioerr => simp [keyDecision] at h
+  | absent =>
+    right
+    cases red with
+    | opened r => simp [keyDecision] at h; simp [h]
+    | ioerr => simp [keyDecision] at h
+    | absent => simp [keyDecision] at h
+
+/-- an image is served keyless only when no candidate was there at all (no fault is taken for absence) -/
+theorem keyless_only_if_absent (adj red : OpenRes) (h : keyDecision adj red = .notFound)
+    (ha : adj ≠ .opened .notFound) (hr : red ≠ .opened .notFound) : adj = .absent ∧ red = .absent := by
+  cases adj with
+  | opened r => simp [keyDecision] at h; exact absurd (by rw [h]) ha
+  | ioerr => simp [keyDecision] at h
+  | absent =>
+    cases red with
+    | opened r => simp [keyDecision] at h; exact absurd (by rw [h]) hr
+    | ioerr => simp [keyDecision] at h
+    | absent => exact ⟨rfl, rfl⟩
+
+/-- without faults the decision is the modelled lookup (`redumpKey`, the function the differential ties
+    to the code): the two candidates are the key beside the image and the one under REDKEY -/
+theorem redumpKey_is_decision (w : World) (p : Path) (name : Bytes) (idx : Nat)
+    (hl : p.getLast? = some name) (he : lowerBytes (extOf name) = lowerBytes Gen.fs_isoExt)
+    (hi : p.findIdx? (fun c => lowerBytes c == lowerBytes Gen.fs_ps3isoDir) = some idx) :
+    redumpKey w p = keyDecision (OpenRes.ofStat (keyAt w (p.dropLast ++ [dkeyName name])))
+      (OpenRes.ofStat (keyAt w ((p.set idx Gen.fs_redkeyDir).dropLast ++ [dkeyName name]))) := by
+  simp only [redumpKey, hl, he, hi, bne_self_eq_false, Bool.false_eq_true, if_false]
+  cases keyAt w (p.dropLast ++ [dkeyName name]) with
+  | some r => simp [keyDecision, OpenRes.ofStat]
+  | none =>
+    cases keyAt w ((p.set idx Gen.fs_redkeyDir).dropLast ++ [dkeyName name]) <;> simp [keyDecision, OpenRes.ofStat]
+
+end KeyLookup
 
 end Ps3.Props.C13
